@@ -78,6 +78,8 @@ type Config struct {
 	TraceLog bool `json:"trace_log,omitempty"`
 	// ScratchReads: the stores hand out storage values as views of one reusable read buffer
 	ScratchReads bool `json:"scratch_reads,omitempty"`
+	// NilTrie: reading from an account that has never stored anything is an error (no data trie)
+	NilTrie bool `json:"nil_trie,omitempty"`
 }
 
 // Event is one step of a run; a replay file is a Config plus a list of Events.
